@@ -82,6 +82,25 @@ def run(ctx):
     ]
 
 
+def selftest(ctx):
+    build_harness()
+    ev = ctx.work / "st-cond.ndjson"
+    vh(["c07-cond-events", "seed=5", "n=400", "depth=4", f"out={ev}"])
+    selftest_calls(ctx, "delivery-corrupted", "Trace_TexCond", "Trace_TexCond.cfg", ev,
+                   lambda e: dict(e, out=e["out"] + [1]) if not e["err"] else None)
+    ex = ctx.work / "st-exp.ndjson"
+    vh(["c07-exp-events", "seed=5", "n=600", "len=8", f"out={ex}"])
+    def swap(e):
+        if e["optimized"]["err"] or not e["optimized"]["out"]: return None
+        e["optimized"]["out"] = e["optimized"]["out"][:-1]
+        return e
+    selftest_calls(ctx, "optimized-delivery-corrupted", "Trace_TexExpand", "Trace_TexExpand_dev.cfg", ex, swap)
+    for c in ["NEG_TexCond_ElseAnyDepth.cfg", "NEG_TexCond_OrAnyDepth.cfg"]:
+        tlc_expect_refuted("MC_TexCond", c, c, workers=3)
+    tlc_expect_refuted("MC_TexExpand", "NEG_TexExpand_ChainReversed.cfg", "chain reversed", workers=3)
+    ctx.cov["rule"] = "selftest: corrupted recordings must be rejected, originals accepted, spec mutants refuted"
+
+
 def replay(path):
     r = json.load(open(path))
     print(json.dumps(r, indent=1)[:3000])
